@@ -4,6 +4,7 @@
   file system accepts — inside the watched tree, outside it, moves out of it and (back) into it.
 -/
 import WD.Proofs.Pipeline.Theorems
+import WD.Proofs.Pipeline.FlatSpec
 /-
   `_partial`: the theorems quantify over all initial trees and all histories of valid operations, but in the
   regime "the stream drains after every operation" (`Sys.op`).  The property also allows file operations issued
@@ -62,6 +63,39 @@ theorem probe_reported_partial (fs0 : FS) (hwf : fs0.WF) (full : Bool) (ops : Li
     rcases hu with h | h
     · exact Or.inl h
     · exact Or.inr h
+  simp [contract, hw, mkEv]
+
+/-- a non-recursive watch never reports anything deeper than the root's direct children: every path of every
+    delivered event is the root or one of its direct children -/
+theorem nonrecursive_depth_partial (fs0 : FS) (hwf : fs0.WF) (full : Bool) (ops : List Op)
+    (hv : allValid (Sys.start fs0 false full) ops = true) (e : PEv)
+    (he : e ∈ allEvents ((Sys.start fs0 false full).run ops)) : e.src.length ≤ 2 ∧ e.dest.length ≤ 2 := by
+  obtain ⟨inv, hs, hc, h4, h5⟩ := start_flat fs0 hwf full
+  have hrun := (run_flat _ ops inv hs hc hv).1
+  rw [h4, h5] at hrun
+  rw [allValid_eq_fsValid, h4] at hv
+  simp only [allEvents, hrun, List.mem_flatten] at he
+  obtain ⟨evs, hevs, hee⟩ := he
+  have := contractRun_flat_shallow fs0 hwf full ops hv evs hevs e hee
+  exact ⟨shallow_len this.1, shallow_len this.2⟩
+
+/-- ... and does report changes to the root's direct children -/
+theorem nonrecursive_children_partial (fs0 : FS) (hwf : fs0.WF) (full : Bool) (ops : List Op)
+    (hv : allValid (Sys.start fs0 false full) ops = true)
+    (hns : ((Sys.start fs0 false full).run ops).1.stopped = false) (name : String)
+    (hfree : ((Sys.start fs0 false full).run ops).1.fs.exists ["W", name] = false) :
+    (⟨.FileCreatedEvent, ["W", name], [], false⟩ : PEv) ∈
+      ((((Sys.start fs0 false full).run ops).1).op (.create ["W", name])).2 := by
+  obtain ⟨inv, hs, hc, _, _⟩ := start_flat fs0 hwf full
+  obtain ⟨_, h2, h3⟩ := run_flat _ ops inv hs hc hv
+  have invF := h3 hns
+  have hW : ((Sys.start fs0 false full).run ops).1.fs.isDir ["W"] = true := invF.wf.rootW
+  have hv1 : validOp ((Sys.start fs0 false full).run ops).1.fs (.create ["W", name]) = true := by
+    simp [validOp, hfree, parentOf, hW]
+  have st := flat_create _ ["W", name] invF hns h2 hv1
+  rw [st.events]
+  have hw : watchedDir ((Sys.start fs0 false full).run ops).1.fs false (parentOf ["W", name]) = true := by
+    simp [watchedDir_flat, parentOf, hW]
   simp [contract, hw, mkEv]
 
 /-- non-vacuity: a directory that leaves the tree, comes back under another name, and whose former parent is
